@@ -18,6 +18,8 @@ import (
 	"runtime"
 	"sort"
 	"sync"
+	"sync/atomic"
+	"time"
 )
 
 type Verdict struct {
@@ -87,7 +89,7 @@ func clip(b []byte, n int) json.RawMessage {
 	return s
 }
 
-func replayMain(p *Prop, casesPath, sumPath string) {
+func replayMain(p *Prop, casesPath, sumPath string, cold int) {
 	if p.Prepare != nil {
 		p.Prepare(casesPath)
 	}
@@ -133,15 +135,34 @@ func replayMain(p *Prop, casesPath, sumPath string) {
 	}
 	ch := make(chan json.RawMessage, 4096)
 	var wg sync.WaitGroup
-	for i := 0; i < workers; i++ {
-		wg.Add(1)
-		go func() {
-			defer wg.Done()
-			for c := range ch {
-				absorb(c, safeReplay(p, c))
-			}
-		}()
+	// cold start: the workers are released together (spin barrier) once the first cases are queued, so that the
+	// process's FIRST calls into the library are made concurrently; with `cold` only one case per goroutine is run
+	var gate atomic.Bool
+	started := false
+	start := func(n int) {
+		started = true
+		for i := 0; i < n; i++ {
+			wg.Add(1)
+			go func() {
+				defer wg.Done()
+				for !gate.Load() {
+				}
+				for c := range ch {
+					absorb(c, safeReplay(p, c))
+					if cold > 0 {
+						return
+					}
+				}
+			}()
+		}
+		time.Sleep(2 * time.Millisecond)
+		gate.Store(true)
 	}
+	if cold > 0 && !p.Serial {
+		workers = 48
+	}
+	queued := 0
+	var pool []json.RawMessage
 	for sc.Scan() {
 		line := sc.Bytes()
 		if len(line) == 0 {
@@ -151,12 +172,34 @@ func replayMain(p *Prop, casesPath, sumPath string) {
 		if err != nil {
 			fatal("bad case line: %v: %.200s", err, line)
 		}
+		if cold > 0 {
+			if pool = append(pool, c); len(pool) >= 5000 {
+				break
+			}
+			continue
+		}
 		ch <- c
+		queued++
+		if !started && queued >= workers {
+			start(workers)
+		}
+	}
+	if cold > 0 && len(pool) > 0 {
+		off := 0
+		if len(pool) > workers {
+			off = (cold * 31) % (len(pool) - workers + 1)
+		}
+		for i := off; i < len(pool) && i < off+workers; i++ {
+			ch <- pool[i]
+		}
 	}
 	if err := sc.Err(); err != nil {
 		fatal("scan: %v", err)
 	}
 	close(ch)
+	if !started {
+		start(workers)
+	}
 	wg.Wait()
 	if p.Finish != nil {
 		p.Finish()
@@ -257,7 +300,13 @@ func main() {
 	}
 	switch os.Args[1] {
 	case "replay":
-		replayMain(p, os.Args[3], os.Args[4])
+		replayMain(p, os.Args[3], os.Args[4], 0)
+	case "cold": // one case per goroutine, all released together right after process start; os.Args[5] varies the pick
+		n := 1
+		if len(os.Args) > 5 {
+			fmt.Sscan(os.Args[5], &n)
+		}
+		replayMain(p, os.Args[3], os.Args[4], 1+n)
 	case "record":
 		var seed int64
 		fmt.Sscan(os.Args[4], &seed)
